@@ -73,7 +73,11 @@ func parseClusterNodes(data string) (map[string]*instance, error) {
 		if inst.MasterID == "" {
 			continue
 		}
-		master := insts[inst.MasterID]
+		master, ok := insts[inst.MasterID]
+		if !ok || master.MasterID != "" {
+			// the replica refers to a node which is unknown or not a master.
+			return nil, errInvalidClusterNodes
+		}
 		master.Replicas = append(master.Replicas, inst)
 		delete(insts, id)
 	}
@@ -103,12 +107,15 @@ func parseClusterNodesSlot(segements []string) ([]int, error) {
 			if err != nil {
 				return nil, errInvalidClusterNodes
 			}
+			if start < 0 || end >= slotNum || start > end {
+				return nil, errInvalidClusterNodes
+			}
 			for i := start; i <= end; i++ {
 				slots = append(slots, i)
 			}
 		} else if len(parts) == 1 {
 			slot, err := strconv.Atoi(parts[0])
-			if err != nil {
+			if err != nil || slot < 0 || slot >= slotNum {
 				return nil, errInvalidClusterNodes
 			}
 			slots = append(slots, slot)
